@@ -162,14 +162,16 @@ class Coverage:
             for pt in r["pts"]:
                 self.add("transform", st + tt + (tuple(pt["p"]),), pt["sn"] != 0 and not ident, s["t"])
                 ref = _f(q, pt["p"])
-                if ref != 0 and (ref > 0) != (pt["sn"] > 0) and bad is None:
+                sg = (ref > 0) - (ref < 0)
+                if ref != 0 and pt["sn"] != sg and (bad is None or (bad["sn"] == 0 and pt["sn"] != 0)):
                     bad = pt
-            if bad is not None and len(self.devs) < 2000:
+            if bad is not None and len(self.devs) < 5000:
+                ref = _f(q, bad["p"])
                 self.devs.append({"surface": s, "T": T, "via": r["via"], "out": r["out"], "p": bad["p"],
-                                  "q": bad["q"], "expected_sense": 1 if _f(q, bad["p"]) > 0 else -1,
+                                  "q": bad["q"], "expected_sense": (ref > 0) - (ref < 0),
                                   "reported_sense": bad["sn"],
                                   "size": sum(abs(x) for x in s["d"]) + sum(abs(x) for x in T["t"])
-                                  + sum(abs(x) for x in bad["p"])})
+                                  + sum(abs(x) for x in bad["p"]) + (0 if bad["sn"] else 100)})
         elif e == "Simp":
             changed = r["out"]["t"] != s["t"] or r["flip"] or (r["out"]["d"] != s["d"])
             self.simplified_changed += changed
@@ -183,6 +185,17 @@ class Coverage:
 def _summary(r):
     m = re.search(r'<<"SUMMARY", "cases", (\d+), "deviations", (\d+)>>', r.out)
     return (int(m.group(1)), int(m.group(2))) if m else (0, 0)
+
+
+def _rejected(r):
+    """The REJECTED tuple printed by the trace spec (TLC pretty-prints it over many lines)."""
+    i = r.out.find('"REJECTED"')
+    if i < 0:
+        return r.out[-1500:]
+    txt = r.out[max(0, i - 3):i + 2600]
+    j = txt.find("Error:")
+    txt = txt if j < 0 else txt[:j]
+    return re.sub(r"\s+", " ", txt)[:1800]
 
 
 def _mc_cfg(ctx, depth):
@@ -203,7 +216,7 @@ def run(ctx):
         ok, r = vlib.validate_trace("SurfacesTrace", "SurfacesTrace", ctx.replay, timeout=3000)
         c, d = _summary(r)
         if not ok:
-            ctx.violation("replayed trace rejected by SurfacesTrace:\n" + vlib.rejected_info(r),
+            ctx.violation("replayed trace rejected by SurfacesTrace:\n" + _rejected(r),
                           tags={"trace": "replay"}, files=[ctx.replay])
         elif d:
             ctx.violation("%d records explained only by the named deviation" % d,
@@ -271,7 +284,7 @@ def run(ctx):
         if r.code != 0:
             if "REJECTED" in r.out or r.violated:
                 ctx.violation("trace %s (vsurf %s) rejected by SurfacesTrace:\n%s"
-                              % (name, " ".join(map(str, argv)), vlib.rejected_info(r)),
+                              % (name, " ".join(map(str, argv)), _rejected(r)),
                               tags={"trace": name}, files=[path])
                 continue
             raise vlib.Broken("TLC failed on %s: exit %d\n%s" % (name, r.code, r.out[-3000:]))
